@@ -82,6 +82,7 @@ def check(src, rep):
     _expected(rep, M, C, RO, END, file)
     # ---------------------------------------------------------------- R5: identification pattern
     _ident(rep, M, ce, file)
+    _ident_line_strict(rep, M, C, RO, DATA, file)
     # ---------------------------------------------------------------- R6: payload
     fn = C.methods["payload"]
     ps = Engine(M).run(fn)
@@ -101,7 +102,7 @@ def check(src, rep):
 
 def _reader_clause(rep, src):
     from sa.cross import include
-    include(rep, src, "C05", {"R2", "R3"}, "R7", "readouts obtained from the reader under every splitting are built from exactly the transmitted lines")
+    include(rep, src, "C05", {"R1", "R2", "R3", "R4"}, "R7", "readouts obtained from the reader under every splitting are built from exactly the transmitted lines")
 
 
 def _mentions(sv, pred):
@@ -325,12 +326,53 @@ def _expected(rep, M, C, RO, END, file):
         pe = Engine(M).run(el)
         if len(pe) == 1 and pe[0].ret is not None:
             r = pe[0].ret
-            ok_el = _mentions(r, lambda s: s == ("slice", F(RO), F(END), None)) and _mentions(r, lambda s: s[0] == "call" and str(s[1]).endswith(".decode")) and r[0] == "call" and str(r[1]).endswith(".strip")
+            r0 = _nolines(r)
+            sl = ("slice", F(RO), F(END), None)
+            ok_el = r0[0] == "call" and str(r0[1]).endswith(".strip") and len(r0[2]) == 1 and r0[2][0][0] == "call" and str(r0[2][0][1]).endswith(".decode") \
+                and r0[2][0][2][0] == sl and all(a == ("c", "ascii") or a == ("kw", "errors", ("c", "strict")) for a in r0[2][0][2][1:])
     if ok and ok_el:
         rep.ok("R4", "expected_checksum", "int(text after '!', 16) where the end line is readout[pos('!'):] decoded and stripped; None exactly when nothing follows '!'")
     else:
         rep.violation("R4", at, "checksum-parse", "the transmitted checksum is not `int(text after '!', base 16)`, absent only when that text is empty", file, fn.node.lineno,
                       witness="; ".join(show_sv(p.ret)[:70] if p.ret else "None" for p in ps))
+
+
+def _nolines(sv):
+    if isinstance(sv, tuple):
+        if sv and sv[0] == "call" and len(sv) == 4 and isinstance(sv[3], int):
+            return ("call", sv[1], tuple(_nolines(x) for x in sv[2]))
+        return tuple(_nolines(x) for x in sv)
+    return sv
+
+
+def _ident_line_strict(rep, M, C, RO, DATA, file):
+    """the text handed to Ident is the strict ASCII decoding of the first line (non-ASCII bytes must not be dropped or replaced silently)"""
+    fn = C.methods.get("identification_line")
+    if fn is None:
+        raise Undecided("anchor vanished: DataReadout.identification_line")
+    ps = Engine(M).run(fn)
+    news = []
+    for p in ps:
+        for e in p.effects:
+            if e[0] == "write" and e[3][0] == "new" and e[3][1] == (MOD, "Ident"):
+                news.append(e[3])
+        if p.ret is not None and p.ret[0] == "new" and p.ret[1] == (MOD, "Ident"):
+            news.append(p.ret)
+    if not news:
+        raise Undecided("identification_line does not construct an Ident")
+    for nv in news:
+        arg = _nolines(nv[3][0]) if len(nv) > 3 and nv[3] else None
+        ok = False
+        if arg is not None and arg[0] == "call" and str(arg[1]).endswith(".strip") and len(arg[2]) == 1:
+            d = arg[2][0]
+            if d[0] == "call" and str(d[1]).endswith(".decode") and d[2][0] == ("slice", F(RO), None, F(DATA)):
+                ok = all(a == ("c", "ascii") or a == ("kw", "errors", ("c", "strict")) for a in d[2][1:])
+        if ok:
+            rep.ok("R5", "identification line text", "Ident() receives the strict ASCII decoding of readout[:data position], stripped")
+        else:
+            rep.violation("R5", f"{MOD}.DataReadout.identification_line", "ident-text", "the identification line handed to the pattern is not the strict ASCII decoding of the readout's first line "
+                          "(bytes are dropped/replaced before matching, so a malformed first line can pass)", file, fn.node.lineno, witness=show_sv(nv)[:140])
+        break
 
 
 def _ident(rep, M, ce, file):
